@@ -48,7 +48,8 @@ GD_PROBLEM = {"tsp": "tsp", "cvrp": "vrp", "sdvrp": "vrp", "pctsp": "pctsp", "sp
 # demand files, fjsp/jssp directories, dpp/mdpp have a loader of their own on the generator)
 GENSAVE_ENVS = ["tsp", "atsp", "cvrptw", "svrp", "op", "pctsp", "spctsp", "pdp", "mtsp", "mdcpdp", "mtvrp",
                 "ffsp", "smtwtp", "flp", "mcp"]
-CKPT_BASELINES = ["no", "exponential", "mean", "rollout", "rollout", "rollout", "warmup2", "warmup2", "critic"]
+CKPT_BASELINES = ["no", "exponential", "mean", "rollout", "rollout", "rollout", "warmup2", "warmup2", "critic",
+                  "pomo", "pomo"]  # pomo = POMO(policy=<object>, shared baseline, multistart decode types)
 
 
 def _tol(ref: float, n: int = 1) -> float:
@@ -949,7 +950,7 @@ def _plan_ckpt(st, rc, tier):
             "src": rc.choice(["path", "path", "fileobj"]), "policy_seed": rc.randrange(1 << 30),
             "fresh": [E.enc_row(r) for r in fresh],
             "fault": rc.choice(["short", "torn", "bitflip"]) if rc.random() < 0.12 else None,
-            "fault_seed": rc.randrange(1 << 30)}
+            "fault_seed": rc.randrange(1 << 30), "num_starts": rc.randint(2, n), "num_augment": rc.choice([1, 2])}
 
 
 def _rollout_policy(model):
@@ -962,6 +963,15 @@ def _rollout_policy(model):
     if isinstance(b, RolloutBaseline):
         return getattr(b, "policy", None)
     return None
+
+
+def _phase_decode(policy, env, td_batch, k):
+    """What the model's validation / test step computes: policy(..., phase='test') with the decode type the
+    model configured on the policy (POMO: multistart_greedy), no explicit decode_type."""
+    policy.eval()
+    with torch.inference_mode():
+        out = policy(env.reset(td_batch.clone()), env, phase="test", num_starts=k, return_actions=True)
+    return out["actions"].tolist(), [float(x) for x in out["reward"].flatten().tolist()]
 
 
 def _exec_ckpt(run, rd):
@@ -983,9 +993,20 @@ def _exec_ckpt(run, rd):
     else:
         baseline = bl
     torch.manual_seed(run.streams.torch_seed("fit"))
-    ok, model = _observe(run, "construct REINFORCE", lambda: PU.tiny_reinforce(
-        env, policy, baseline, batch_size=plan["batch_size"], train_data_size=plan["train_data_size"],
-        val_data_size=plan["val_data_size"], test_data_size=2, **kw))
+    Model = REINFORCE
+    if bl == "pomo":
+        from rl4co.models.zoo import POMO
+
+        Model = POMO
+        scope = "POMO[shared]"
+        ok, model = _observe(run, "construct POMO", lambda: POMO(
+            env, policy=policy, num_starts=plan.get("num_starts", 3), num_augment=plan.get("num_augment", 2),
+            batch_size=plan["batch_size"], train_data_size=plan["train_data_size"],
+            val_data_size=plan["val_data_size"], test_data_size=2, optimizer_kwargs={"lr": 1e-2}))
+    else:
+        ok, model = _observe(run, "construct REINFORCE", lambda: PU.tiny_reinforce(
+            env, policy, baseline, batch_size=plan["batch_size"], train_data_size=plan["train_data_size"],
+            val_data_size=plan["val_data_size"], test_data_size=2, **kw))
     if not ok:
         run.probe("obs_model_construction_failed")
         return
@@ -999,6 +1020,8 @@ def _exec_ckpt(run, rd):
     run.probe("fit_done")
     # ---- what the objects compute before the crash ------------------------------------------------------
     before = {"policy": PU.greedy(model.policy, model.env, fresh)}
+    if bl == "pomo":  # the model's own evaluation decode (phase='test': multi-start greedy, deterministic)
+        before["phase"] = _phase_decode(model.policy, model.env, fresh, plan.get("num_starts", 3))
     rp = _rollout_policy(model)
     if rp is not None:
         before["baseline_policy"] = PU.greedy(rp, model.env, fresh)
@@ -1026,7 +1049,7 @@ def _exec_ckpt(run, rd):
         fs.export_path("model.ckpt", path)
         run.fault("storage-" + plan["fault"], info)
         ok, m2 = _observe(run, "load damaged checkpoint",
-                          lambda: REINFORCE.load_from_checkpoint(path, load_baseline=False, weights_only=False))
+                          lambda: Model.load_from_checkpoint(path, load_baseline=False, weights_only=False))
         if not ok:
             run.probe("fault_load_raised")
         else:
@@ -1042,7 +1065,7 @@ def _exec_ckpt(run, rd):
         return fs.open("model.ckpt") if src == "fileobj" else path
 
     def load(**extra):
-        return REINFORCE.load_from_checkpoint(source(), load_baseline=lb, weights_only=False, **extra)
+        return Model.load_from_checkpoint(source(), load_baseline=lb, weights_only=False, **extra)
 
     m2 = None
     how = "as documented"
@@ -1067,7 +1090,7 @@ def _exec_ckpt(run, rd):
                 m2 = None
             if m2 is None and src == "fileobj":
                 ok, m2 = _observe(run, "load from path with lenient torch.load",
-                                  lambda: REINFORCE.load_from_checkpoint(path, load_baseline=lb, weights_only=False))
+                                  lambda: Model.load_from_checkpoint(path, load_baseline=lb, weights_only=False))
                 how = "lenient torch.load, path"
                 if not ok:
                     m2 = None
@@ -1077,6 +1100,11 @@ def _exec_ckpt(run, rd):
     after = PU.greedy(m2.policy, m2.env, fresh)
     _cmp_greedy(run, scope, "restored_policy", before["policy"], after, "policy", how=how, load_baseline=lb, src=src)
     run.probe("ckpt_policy_restored")
+    if "phase" in before:
+        ph2 = _phase_decode(m2.policy, m2.env, fresh, plan.get("num_starts", 3))
+        _cmp_greedy(run, scope, "restored_policy_phase_decode", before["phase"], ph2,
+                    "policy under its own test-phase decoding (multi-start greedy)", how=how, load_baseline=lb, src=src)
+        run.probe("ckpt_phase_decode_restored")
     if lb and "baseline_policy" in before:
         rp2 = _rollout_policy(m2)
         if rp2 is None:
